@@ -579,6 +579,41 @@ def run_case(c):
                     cmp_arr("frequencies (NAC)", [[b["frequency"] for b in p_["band"]] for p_ in y["phonon"]], tw.get_qpoints_dict()["frequencies"], decimals_in(txt, "frequency:"), "nac:" + cmd, "qpoints.yaml")
                     n_files += 1
                     keys.append("wf|%s|nac|%s" % (c["crystal"]["name"], cmd))
+        # ---- custom masses (--mass option / MASS tag): outputs vs the library with the masses set; the summary file must reload to that calculation
+        if mag is None:
+            mlist = [float(np.round(m_ * (1.3 + 0.11 * i_), 6)) for i_, m_ in enumerate(np.array(ph.primitive.masses))]
+            for cmd, route in (("phonopy-load", "option"), ("phonopy", "option"), ("phonopy-load", "tag")):
+                cur["cmd"] = cmd
+                pre_ = ["--fc-calc", "traditional"] if cmd == "phonopy-load" else base_args + ["--fc-symmetry"]
+                for fn_ in ("qpoints.yaml", "phonopy.yaml"):
+                    if os.path.exists(os.path.join(tmp, fn_)):
+                        os.remove(os.path.join(tmp, fn_))
+                if route == "option":
+                    args = pre_ + ["--mass"] + [str(m_) for m_ in mlist] + ["--qpoints", "0.1 0.2 0.3 1/2 0 0"]
+                else:
+                    open(os.path.join(tmp, "m.conf"), "w").write("MASS = %s\nQPOINTS = 0.1 0.2 0.3 1/2 0 0\n" % " ".join(str(m_) for m_ in mlist))
+                    args = pre_ + ["--config", "m.conf"]
+                if cli(cmd, args, "mass-%s:%s" % (route, cmd)) is None or not os.path.exists(os.path.join(tmp, "qpoints.yaml")):
+                    continue
+                tw = twin()
+                tw.masses = mlist
+                tw.run_qpoints([[0.1, 0.2, 0.3], [0.5, 0, 0]])
+                want_f = np.array(tw.get_qpoints_dict()["frequencies"])
+                y = load_yaml("qpoints.yaml")
+                txt = open(os.path.join(tmp, "qpoints.yaml")).read()
+                cmp_arr("frequencies (custom masses)", [[b["frequency"] for b in p_["band"]] for p_ in y["phonon"]], want_f, decimals_in(txt, "frequency:"), "mass-%s:%s" % (route, cmd), "qpoints.yaml")
+                n_files += 1
+                keys.append("wf|%s|mass|%s|%s" % (c["crystal"]["name"], cmd, route))
+                if os.path.exists(os.path.join(tmp, "phonopy.yaml")):
+                    ys = load_yaml("phonopy.yaml")
+                    n_files += 1
+                    for block, cell_ in (("primitive_cell", tw.primitive), ("unit_cell", tw.unitcell), ("supercell", tw.supercell)):
+                        got_m = np.array([p_.get("mass", np.nan) for p_ in ys[block]["points"]], float)
+                        if got_m.shape != np.array(cell_.masses).shape or not np.abs(got_m - np.array(cell_.masses)).max() <= 1e-5:
+                            bad("summary_reload", "phonopy.yaml written by %s (%s route) with custom masses: %s masses are %s, the run used %s" % (
+                                cmd, route, block, np.round(got_m, 4).tolist()[:4], np.round(cell_.masses, 4).tolist()[:4]), step="mass-summary:" + cmd, block=block, **feat)
+                            break
+        cur["cmd"] = "phonopy-load"
         # ---- further run modes of phonopy-load (group velocities, eigenvectors, thermal displacements, hdf5, band connection, dynamical matrices,
         #      tetrahedron DOS); quantities that are only defined up to a rotation inside a degenerate subspace are compared as such
         cur["cmd"] = "phonopy-load"
